@@ -36,10 +36,9 @@ func Graph6Decode(s string) (*DenseGraph, error) {
 	if s[0] != 126 {
 		n = uint64(s[0] - 63)
 		i = 1
+	} else if len(s) < 4 {
+		return &DenseGraph{}, errors.New("String too short - unable to decode n")
 	} else if s[1] != 126 {
-		if len(s) < 4 {
-			return &DenseGraph{}, errors.New("String too short - unable to decode n")
-		}
 		n = (uint64(s[1]-63) << 12) + (uint64(s[2]-63) << 6) + uint64(s[3]-63)
 		i = 4
 	} else {
